@@ -93,14 +93,15 @@ def enc(c):
     return c if isinstance(c, (bytes, int)) else c.encode("utf-8", "surrogateescape")
 
 
-def v1_meta(name, entries, single=False):
-    """entries: list of (path elements (any bencodable), data)"""
+def v1_meta(name, entries, single=False, extra=None):
+    """entries: list of (path elements (any bencodable), data); extra: per entry a dict of further keys (attr, ...) or None"""
     info = {b"name": enc(name), b"piece length": PL}
     if single:
         info[b"length"] = len(entries[0][1])
         stream = entries[0][1]
     else:
-        info[b"files"] = [{b"length": len(d), b"path": [enc(c) for c in comps]} for comps, d in entries]
+        info[b"files"] = [{b"length": len(d), b"path": [enc(c) for c in comps], **((extra or [None] * len(entries))[i] or {})}
+                          for i, (comps, d) in enumerate(entries)]
         stream = b"".join(d for _, d in entries)
     info[b"pieces"] = b"".join(oracle.v1_pieces(stream, PL))
     return oracle.bencode({b"info": info})
@@ -149,6 +150,19 @@ def gen_cases(tier, absc, rng):
         except Exception:  # noqa
             continue
         out.append({"kind": "odd", "label": f"v1 path with other element types {comps!r}", "raw": raw, "name": "n", "path": None, "depth": len(comps)})
+    # entries that carry further keys (BEP 47 attr flags, symlink path, md5sum ...): validation must not depend on them
+    flagged = [s for k in (1, 2) for s in itertools.product(A, repeat=k)] + [("..", "..", "a"), (absc, "x", "a"), ("a", "..", "..", "..", "a")]
+    extras = [{b"attr": b"p"}, {b"attr": b"x"}, {b"attr": b"h"}, {b"attr": b"px"}, {b"attr": b"l", b"symlink path": [b"a"]},
+              {b"md5sum": b"0" * 32}, {b"attr": b""}]
+    for j, seq in enumerate(flagged):
+        for ex in (extras if tier != "quick" else [extras[0], extras[1 + j % (len(extras) - 1)]]):
+            lab = {k.decode(): (v.decode() if isinstance(v, bytes) else "...") for k, v in ex.items()}
+            out.append({"kind": "v1-flagged", "label": f"v1 path {list(seq)} in an entry with {lab}",
+                        "raw": v1_meta("n", [(seq, DATA)], extra=[ex]), "name": "n", "path": list(seq), "depth": len(seq)})
+            if j % 3 == 0:      # the usual layout: a benign file first, the flagged entry after it
+                out.append({"kind": "v1-flagged", "label": f"v1 benign file, then path {list(seq)} in an entry with {lab}",
+                            "raw": v1_meta("n", [(("first",), DATA), (seq, DATA)], extra=[None, ex]), "name": "n", "path": list(seq),
+                            "depth": len(seq), "second": True})
     for seq in (["..", "..", "a"], ["..", "a"], [absc, "a"], ["a/../../../a"], ["", "..", "..", "..x"]):
         out.append({"kind": "batch", "label": f"metafile directory: hostile v1 path {seq} next to a benign metafile",
                     "raw": oracle.ref_metafile("n", [(tuple(seq), DATA)], PL, 1), "name": "n", "path": seq, "depth": len(seq),
@@ -264,7 +278,7 @@ def e2e(ctx, model_ok):
                     ctx.disagree("Model/PathSafe.v checked_target = None vs Metadata refusing the metafile with ValueError",
                                  {"name": c["name"], "path": c["path"]}, "refuses" if m_refuses else "accepts",
                                  f"error={rep.get('error')}")
-                elif not m_refuses and c["path"] and c["path"][-1] in CANDIDATES:
+                elif not m_refuses and c["path"] and c["path"][-1] in CANDIDATES and not c.get("second"):
                     want = "/".join(bytes.fromhex(h).decode() for h in model[c["index"]].split(",")[1:])
                     if want not in r["inside"]:
                         ctx.disagree("Model/PathSafe.v checked_target vs where the file was copied",
